@@ -174,7 +174,7 @@ theorem genImplBlock_ok {opts : Opts} {traitRef : Toks} {ind : ImplIndirection} 
            traitRef := traitRef ++ genericArgs ind tg.params
            selfTy := implSelfTy depMode ind opts.mockable
            preds := implWherePreds depMode ind fns tg
-           members := fns.map fun tf => .fn [] tf.sig (some (delegatingBody mode ind tf)) } := by
+           members := fns.map fun tf => .fn tf.attrs tf.sig (some (delegatingBody mode ind tf)) } := by
   unfold genImplBlock at h
   split at h
   · simp at h
@@ -254,5 +254,115 @@ theorem macroParam_generic (bv : Bool) (ps : List GParam) :
   unfold macroParam implParams
   simp only [List.filter_append, filter_lifetimes_not, List.nil_append]
   rfl
+
+/-! ### mirroring of `cfg` attributes: `attachCfg` changes nothing but the attributes -/
+
+@[simp] theorem withCfgOf_sig (tf : TraitFn) (a : List Attr) : (tf.withCfgOf a).sig = tf.sig := rfl
+@[simp] theorem withCfgOf_deps (tf : TraitFn) (a : List Attr) : (tf.withCfgOf a).deps = tf.deps := rfl
+@[simp] theorem withCfgOf_async (tf : TraitFn) (a : List Attr) : (tf.withCfgOf a).originallyAsync = tf.originallyAsync := rfl
+@[simp] theorem withCfgOf_attrs (tf : TraitFn) (a : List Attr) : (tf.withCfgOf a).attrs = a.filter Attr.isCfgAttr := rfl
+
+theorem attachCfg_map {β : Type} (g : TraitFn → β) (hg : ∀ tf a, g (tf.withCfgOf a) = g tf) :
+    ∀ (as : List (List Attr)) (fns : List TraitFn), (attachCfg as fns).map g = fns.map g
+  | [], fns => by cases fns <;> rfl
+  | _ :: _, [] => rfl
+  | a :: as, tf :: fns => by simp [attachCfg, hg, attachCfg_map g hg as fns]
+
+theorem attachCfg_length : ∀ (as : List (List Attr)) (fns : List TraitFn), (attachCfg as fns).length = fns.length
+  | [], fns => by cases fns <;> rfl
+  | _ :: _, [] => rfl
+  | a :: as, tf :: fns => by simp [attachCfg, attachCfg_length as fns]
+
+/-- a per-function fact that does not look at the attributes survives the mirroring -/
+theorem zipAll_attachCfg {α : Type} (f : α → TraitFn → Bool) (hf : ∀ x tf a, f x (tf.withCfgOf a) = f x tf) :
+    ∀ (xs : List α) (as : List (List Attr)) (fns : List TraitFn), zipAll f xs (attachCfg as fns) = zipAll f xs fns
+  | xs, [], fns => by cases fns <;> rfl
+  | xs, _ :: _, [] => rfl
+  | [], a :: as, tf :: fns => rfl
+  | x :: xs, a :: as, tf :: fns => by simp [attachCfg, zipAll, hf, zipAll_attachCfg f hf xs as fns]
+
+theorem all_attachCfg (Q : TraitFn → Prop) (hQ : ∀ tf a, Q tf → Q (tf.withCfgOf a)) :
+    ∀ (as : List (List Attr)) (fns : List TraitFn), (∀ tf ∈ fns, Q tf) → ∀ tf ∈ attachCfg as fns, Q tf
+  | [], fns, h => by cases fns <;> exact h
+  | _ :: _, [], h => h
+  | a :: as, tf :: fns, h => by
+      intro x hx
+      simp only [attachCfg, List.mem_cons] at hx
+      rcases hx with rfl | hx
+      · exact hQ tf a (h tf List.mem_cons_self)
+      · exact all_attachCfg Q hQ as fns (fun y hy => h y (List.mem_cons_of_mem _ hy)) x hx
+
+theorem any_attachCfg (g : TraitFn → Bool) (hg : ∀ tf a, g (tf.withCfgOf a) = g tf) (as : List (List Attr)) (fns : List TraitFn) :
+    (attachCfg as fns).any g = fns.any g := by
+  have := attachCfg_map g hg as fns
+  have h1 : (attachCfg as fns).any g = ((attachCfg as fns).map g).any id := by simp [List.any_map]
+  have h2 : fns.any g = (fns.map g).any id := by simp [List.any_map]
+  rw [h1, h2, this]
+
+theorem detectDepMode_attachCfg (mode : InputMode) :
+    ∀ (as : List (List Attr)) (fns : List TraitFn), detectDepMode mode (attachCfg as fns) = detectDepMode mode fns
+  | [], fns => by cases fns <;> rfl
+  | _ :: _, [] => rfl
+  | a :: as, tf :: fns => by
+      simp only [attachCfg]
+      unfold detectDepMode
+      simp only [withCfgOf_deps]
+      cases tf.deps <;> simp [detectDepMode_attachCfg mode as fns]
+
+/-- the attributes after the mirroring: the `cfg` attributes of the source function, position by position -/
+theorem attachCfg_attrs : ∀ (as : List (List Attr)) (fns : List TraitFn), as.length = fns.length →
+    (attachCfg as fns).map (·.attrs) = as.map (·.filter Attr.isCfgAttr)
+  | [], [], _ => rfl
+  | [], _ :: _, h => by simp at h
+  | _ :: _, [], h => by simp at h
+  | a :: as, tf :: fns, h => by
+      simp only [attachCfg, List.map_cons, withCfgOf_attrs, List.cons.injEq, true_and]
+      exact attachCfg_attrs as fns (by simpa using h)
+
+/-- `analyzeFns_zip` after the mirroring, for per-function facts that do not look at the attributes -/
+theorem analyzeFns_zip_cfg (kind : ReceiverKind) (opts : Opts) (Q : Sig → TraitFn → Bool)
+    (hQa : ∀ s tf a, Q s (tf.withCfgOf a) = Q s tf)
+    (sigs : List Sig) (tg tg' : TraitGenerics) (fns0 : List TraitFn) (as : List (List Attr))
+    (hQ : ∀ s ∈ sigs, ∀ tg tf tg', analyzeFn kind opts s tg = .ok (tf, tg') → Q s tf = true)
+    (h : analyzeFns kind opts sigs tg = .ok (fns0, tg')) : zipAll Q sigs (attachCfg as fns0) = true := by
+  rw [zipAll_attachCfg Q hQa]
+  exact analyzeFns_zip kind opts Q sigs tg tg' fns0 hQ h
+
+/-- `analyzeFns_all` after the mirroring -/
+theorem analyzeFns_all_cfg (kind : ReceiverKind) (opts : Opts) (Q : TraitFn → Prop)
+    (hQa : ∀ tf a, Q tf → Q (tf.withCfgOf a))
+    (hQ : ∀ s tg tf tg', analyzeFn kind opts s tg = .ok (tf, tg') → Q tf)
+    (sigs : List Sig) (tg tg' : TraitGenerics) (fns0 : List TraitFn) (as : List (List Attr))
+    (h : analyzeFns kind opts sigs tg = .ok (fns0, tg')) : ∀ tf ∈ attachCfg as fns0, Q tf :=
+  all_attachCfg Q hQa as fns0 (analyzeFns_all kind opts Q hQ sigs tg tg' fns0 h)
+
+theorem depsBounds_attachCfg : ∀ (as : List (List Attr)) (fns : List TraitFn), depsBounds (attachCfg as fns) = depsBounds fns
+  | [], fns => by cases fns <;> rfl
+  | _ :: _, [] => rfl
+  | a :: as, tf :: fns => by simp [attachCfg, depsBounds, depsBounds_attachCfg as fns]
+
+/-- the impl block generated from the mirrored functions is the one generated from the analysed functions,
+    with the `cfg` attributes on its members: header, generics and where clause are the same -/
+theorem genImplBlock_attachCfg {opts : Opts} {traitRef : Toks} {ind : ImplIndirection} {tg : TraitGenerics}
+    {mode : InputMode} {depMode : DepMode} {subAttrs : List Attr} {fns0 : List TraitFn} {as : List (List Attr)} {im : GenImpl}
+    (h : genImplBlock opts traitRef ind tg mode depMode subAttrs (attachCfg as fns0) = .ok im) :
+    ∃ im0, genImplBlock opts traitRef ind tg mode depMode subAttrs fns0 = .ok im0 ∧
+      im.attrs = im0.attrs ∧ im.params = im0.params ∧ im.traitRef = im0.traitRef ∧ im.selfTy = im0.selfTy ∧
+      im.preds = im0.preds := by
+  have hany : (attachCfg as fns0).any (fun tf => hasNonIdentParam tf.sig.inputs) = fns0.any (fun tf => hasNonIdentParam tf.sig.inputs) :=
+    any_attachCfg _ (fun _ _ => rfl) as fns0
+  have hbv : (attachCfg as fns0).any (fun tf => tf.sig.takesSelfByValue) = fns0.any (fun tf => tf.sig.takesSelfByValue) :=
+    any_attachCfg _ (fun _ _ => rfl) as fns0
+  unfold genImplBlock at h ⊢
+  rw [hany] at h
+  split at h
+  · cases h
+  · rename_i hn
+    injection h with h
+    subst h
+    simp only [hn, Bool.false_eq_true, if_false]
+    refine ⟨_, rfl, rfl, ?_, rfl, rfl, ?_⟩
+    · simp only [hbv]
+    · simp only [implWherePreds, depsBounds_attachCfg]
 
 end Entrait
